@@ -480,6 +480,10 @@ func desugarIterators(pkgs []*packages.Package) (map[string][]byte, []string, ma
 				notes = append(notes, fmt.Sprintf("%s: range over %s read as the loop nest it denotes", fset.Position(rs.For), d.decl.Name.Name))
 				return false
 			})
+			// a function value chosen by one test and then only called (see selectedFuncValues)
+			se, sn := selectedFuncValues(pk, f, content, file, &site)
+			edits = append(edits, se...)
+			notes = append(notes, sn...)
 			if len(edits) > 0 {
 				out := applyEdits(content, 0, len(content), edits)
 				for path, local := range keepImport {
@@ -510,4 +514,212 @@ func desugarIterators(pkgs []*packages.Package) (map[string][]byte, []string, ma
 		}
 	}
 	return overlay, notes, inlinedAway
+}
+
+// selectedFuncValues rewrites
+//
+//	f := A                                   var sel bool
+//	if COND { f = B }                 ⇒      if COND { sel = true }
+//	if x, ok := f(ARGS); C { BODY }          { var x T1; var ok T2
+//	                                           if sel { x, ok = B(ARGS) } else { x, ok = A(ARGS) }
+//	                                           if C { BODY } }
+//
+// — the "strategy picked per iteration" idiom — into the two static calls it denotes. Conditions,
+// all syntactic: f is a local of function type defined by `f := A`, the very next statement is
+// `if COND { f = B }` without else, A and B are method values / function names rooted at
+// parameters, the receiver or package-level functions, and every other use of f is the callee of a
+// call that is the initialiser of an if statement (`if … := f(ARGS); …`). COND is still evaluated
+// once, where it was; the arguments are evaluated once, in the arm that runs.
+func selectedFuncValues(pk *packages.Package, file *ast.File, content []byte, fname string, site *int) ([]textEdit, []string) {
+	fset := pk.Fset
+	off := func(p token.Pos) int { return fset.Position(p).Offset }
+	text := func(n ast.Node) string { return string(content[off(n.Pos()):off(n.End())]) }
+	// import names of this file, for spelling result types
+	imports := map[string]string{}
+	for _, im := range file.Imports {
+		path := strings.Trim(im.Path.Value, "\"")
+		name := path[strings.LastIndex(path, "/")+1:]
+		if im.Name != nil {
+			name = im.Name.Name
+		}
+		imports[path] = name
+	}
+	missing := false
+	qual := func(p *types.Package) string {
+		if p == pk.Types {
+			return ""
+		}
+		if n, ok := imports[p.Path()]; ok {
+			return n
+		}
+		// the package's own name when the import path's last element differs (v1 → k8s.io/api/core/v1)
+		for path, n := range imports {
+			if path == p.Path() {
+				return n
+			}
+		}
+		missing = true
+		return p.Name()
+	}
+	stable := func(e ast.Expr) bool {
+		// A / B: an identifier or selector chain whose root is a parameter, the receiver or a function
+		for {
+			switch x := e.(type) {
+			case *ast.SelectorExpr:
+				e = x.X
+				continue
+			case *ast.Ident:
+				switch o := pk.TypesInfo.Uses[x].(type) {
+				case *types.Func, *types.PkgName:
+					return true
+				case *types.Var:
+					return o.Parent() != nil && !o.IsField() && isParamOrRecv(pk, file, o)
+				}
+			}
+			return false
+		}
+	}
+	var edits []textEdit
+	var notes []string
+	ast.Inspect(file, func(n ast.Node) bool {
+		blk, ok := n.(*ast.BlockStmt)
+		if !ok {
+			return true
+		}
+		for i := 0; i+1 < len(blk.List); i++ {
+			def, ok := blk.List[i].(*ast.AssignStmt)
+			if !ok || def.Tok != token.DEFINE || len(def.Lhs) != 1 || len(def.Rhs) != 1 {
+				continue
+			}
+			fid, ok := def.Lhs[0].(*ast.Ident)
+			if !ok {
+				continue
+			}
+			fobj := pk.TypesInfo.Defs[fid]
+			if fobj == nil {
+				continue
+			}
+			sig, ok := fobj.Type().Underlying().(*types.Signature)
+			if !ok || sig.Variadic() {
+				continue
+			}
+			sel, ok := blk.List[i+1].(*ast.IfStmt)
+			if !ok || sel.Init != nil || sel.Else != nil || len(sel.Body.List) != 1 {
+				continue
+			}
+			re, ok := sel.Body.List[0].(*ast.AssignStmt)
+			if !ok || re.Tok != token.ASSIGN || len(re.Lhs) != 1 || len(re.Rhs) != 1 {
+				continue
+			}
+			if id, ok := re.Lhs[0].(*ast.Ident); !ok || pk.TypesInfo.Uses[id] != fobj {
+				continue
+			}
+			A, B := def.Rhs[0], re.Rhs[0]
+			if !stable(A) || !stable(B) {
+				continue
+			}
+			// every other use: the callee of `if … := f(ARGS); …`
+			type use struct {
+				ifs  *ast.IfStmt
+				init *ast.AssignStmt
+				call *ast.CallExpr
+			}
+			var uses []use
+			okUses := true
+			nUses := 0
+			ast.Inspect(file, func(m ast.Node) bool {
+				if id, isID := m.(*ast.Ident); isID && pk.TypesInfo.Uses[id] == fobj {
+					nUses++
+				}
+				ifs, isIf := m.(*ast.IfStmt)
+				if !isIf || ifs.Init == nil {
+					return true
+				}
+				as, isAs := ifs.Init.(*ast.AssignStmt)
+				if !isAs || as.Tok != token.DEFINE || len(as.Rhs) != 1 {
+					return true
+				}
+				c, isCall := as.Rhs[0].(*ast.CallExpr)
+				if !isCall || c.Ellipsis.IsValid() {
+					return true
+				}
+				if id, isID := c.Fun.(*ast.Ident); isID && pk.TypesInfo.Uses[id] == fobj {
+					if len(as.Lhs) != sig.Results().Len() {
+						okUses = false
+					}
+					uses = append(uses, use{ifs, as, c})
+				}
+				return true
+			})
+			// nUses counts the reassignment and one identifier per call
+			if !okUses || len(uses) == 0 || nUses != len(uses)+1 {
+				continue
+			}
+			*site++
+			selName := fmt.Sprintf("fsel_%d", *site)
+			var local []textEdit
+			local = append(local, textEdit{off(def.Pos()), off(def.End()), "var " + selName + " bool"})
+			local = append(local, textEdit{off(re.Pos()), off(re.End()), selName + " = true"})
+			bad := false
+			for _, u := range uses {
+				var decls, lhs []string
+				for k, l := range u.init.Lhs {
+					name := text(l)
+					lhs = append(lhs, name)
+					if name != "_" {
+						decls = append(decls, "var "+name+" "+types.TypeString(sig.Results().At(k).Type(), qual))
+					}
+				}
+				args := ""
+				if len(u.call.Args) > 0 {
+					args = string(content[off(u.call.Args[0].Pos()):off(u.call.Args[len(u.call.Args)-1].End())])
+				}
+				assignTo := strings.Join(lhs, ", ") + " = "
+				head := "{ " + strings.Join(decls, "; ") + "\nif " + selName + " { " + assignTo + text(B) + "(" + args + ") } else { " + assignTo + text(A) + "(" + args + ") }\nif "
+				condAt := fset.Position(u.ifs.Cond.Pos())
+				head += fmt.Sprintf("/*line %s:%d:%d*/", fname, condAt.Line, condAt.Column)
+				// replace `if INIT; ` by head, close the extra block after the statement
+				local = append(local, textEdit{off(u.ifs.Pos()), off(u.ifs.Cond.Pos()), head})
+				endAt := fset.Position(u.ifs.End())
+				local = append(local, textEdit{off(u.ifs.End()), off(u.ifs.End()), " }" + fmt.Sprintf("/*line %s:%d:%d*/", fname, endAt.Line, endAt.Column)})
+			}
+			if missing || bad {
+				*site--
+				missing = false
+				continue
+			}
+			edits = append(edits, local...)
+			notes = append(notes, fmt.Sprintf("%s: function value %s chosen by one test read as the two static calls it denotes", fset.Position(def.Pos()), fid.Name))
+		}
+		return true
+	})
+	return edits, notes
+}
+
+// isParamOrRecv: o is a parameter or the receiver of the function declaration it is used in.
+func isParamOrRecv(pk *packages.Package, file *ast.File, o *types.Var) bool {
+	found := false
+	for _, d := range file.Decls {
+		fd, ok := d.(*ast.FuncDecl)
+		if !ok {
+			continue
+		}
+		lists := []*ast.FieldList{fd.Type.Params}
+		if fd.Recv != nil {
+			lists = append(lists, fd.Recv)
+		}
+		for _, fl := range lists {
+			if fl == nil {
+				continue
+			}
+			for _, f := range fl.List {
+				for _, nm := range f.Names {
+					if pk.TypesInfo.Defs[nm] == types.Object(o) {
+						found = true
+					}
+				}
+			}
+		}
+	}
+	return found
 }
